@@ -241,7 +241,7 @@ def main(argv):
         v.violation('debug info disagrees with the written file: %s' % what, {'class': cls, 'source_text': text, 'family': fam, 'game': game})
 
     if v.corr_ok and cases:
-        mism, errs = coq_eval_cases(PROP, IMPORTS, 'c18case', cases, shard=150 if tier == 'quick' else 400)
+        mism, errs = coq_eval_cases(PROP, IMPORTS, 'c18case', cases, shard=max(150, (len(cases) + 1) // 2) if tier == 'quick' else 600)
         v.obligation('correspondence: Model.DebugInfo.gather on the instruction sizes found in the written file = offsets, label offsets and end offset of the debug info, on %d scripts (vm_compute inside Coq)' % len(cases),
                      not mism and not errs, ('%d mismatches; ' % len(mism)) + '; '.join(errs)[:600] if (mism or errs) else '')
         for i in mism[:3]:
